@@ -14,7 +14,7 @@ import numpy as np
 
 from .. import core, tlaval, tlc
 
-INVS = ["ModelIsMinimiser", "ShapeKept", "Idempotent", "FeasibleIsFixed"]
+INVS = ["ModelIsMinimiser", "ShapeKept", "Idempotent", "FeasibleIsFixed", "GroupsAreIndependent"]
 
 
 def rq(x):
@@ -63,13 +63,26 @@ def bases(n, thorough):
     return B
 
 
+def group_bases():
+    """L2Proj(axes=...): one ball per group (Prox.tla kind L2ProjG, q = <<n, eps, g>>)."""
+    B = []
+    for n, g in ((4, 2), (6, 2), (6, 3)):
+        bias = [(Fraction(1), 0)] + [(0, 0)] * (n - 2) + [(Fraction(-1, 2), 0)]
+        for eps in [1, 5, Fraction(5, 2)]:
+            B.append(mk("L2ProjG", [rq(n), rq(eps), rq(g)], [vec([(0, 0)] * n)]))
+        B.append(mk("L2ProjG", [rq(n), rq(1), rq(g)], [vec(bias)]))
+    return B
+
+
 def points(n, rng, thorough):
     curated = {
         2: [(3, 4), (0, 0), (H, -H), (1, 1), (-3, 0), (5, -12), (3 + 4j, 0), (-4 + 3j, 5), (H, 2), (-1, 2), (6, 8j), (1j, -1j)],
         3: [(1, 2, 2), (2, 3, 6), (0, 0, 5), (0, 0, 0), (1, -1, H), (2, 2, -2), (3 + 4j, 0, 0), (-1, H, 7), (4, 4, -2), (1, 2 + 0j, -2j), (H, H, H)],
-        4: [(1, 1, 1, 1), (2, 2, 2, 2), (1, 2, 2, 4), (0, 0, 0, 0), (3, -4, 0, 0), (H, -1, 2, 5), (3 + 4j, -5, 0, 12j), (1, 1, -1, 7)],
+        4: [(1, 1, 1, 1), (2, 2, 2, 2), (1, 2, 2, 4), (0, 0, 0, 0), (3, -4, 0, 0), (H, -1, 2, 5), (3 + 4j, -5, 0, 12j), (1, 1, -1, 7),
+            (3, 4, 6, 8), (0, 0, 5, 12), (3, 4, H, 0), (6, 8j, 3, -4), (1, 0, 0, 2), (3 + 4j, 0, 5, -12), (1, 0, -H, 0)],   # halves with rational norms (groups)
         5: [(2, 2, 2, 2, 3), (0, 0, 3, 4, 0), (1, -1, H, 2, -3), (1, 1, 1, 1, 1), (5, 0, 0, 0, 0), (-2, 2, 4, -4, 1)],
-        6: [(2, 2, 2, 2, 2, 4), (3, 4, 0, 0, 0, 0), (1, -1, 2, -2, H, 0), (0, 0, 0, 0, 0, 0), (1, 2, 2, 0, 0, 4), (H, H, -H, 3, -3, 1)],
+        6: [(2, 2, 2, 2, 2, 4), (3, 4, 0, 0, 0, 0), (1, -1, 2, -2, H, 0), (0, 0, 0, 0, 0, 0), (1, 2, 2, 0, 0, 4), (H, H, -H, 3, -3, 1),
+            (1, 2, 2, 2, 3, 6), (0, 0, 5, 4, 4, -2), (3, 4, 6, 8, 5, 12), (3, 4, 0, 0, H, 0), (2, -1, 2, 0, H, 0), (6, 8j, 0, 1, -3, 4j)],   # thirds / halves with rational norms
     }
     out = [vec([(Fraction(z.real).limit_denominator(64), Fraction(z.imag).limit_denominator(64)) if isinstance(z, complex) else (Fraction(z), 0) for z in p]) for p in curated[n]]
     pool = [0, H, -1, 1, 2, -3, 5, Fraction(5, 2), -H]
@@ -98,7 +111,7 @@ def unitaries():
 def mc_text(ctx, max_wraps):
     rng = ctx.rng("prox_points")
     th = ctx.thorough
-    B = bases(2, th) + bases(3, th)
+    B = bases(2, th) + bases(3, th) + group_bases()
     SB = [mk("L1Reg", [rq(2), rq(1)]), mk("L2Proj", [rq(2), rq(5)], [vec([(0, 0), (0, 0)])]), mk("Box", [rq(2), rq(-1), rq(2)]), mk("L1Proj", [rq(3), rq(4)])]
     P = []
     for n in (2, 3, 4, 5, 6):
@@ -158,6 +171,19 @@ def has_kind(e, kinds):
 
 
 CAPTURED = []
+AX_SPELL = ["last"]   # how the axes of a grouped L2Proj are spelled by build(): [-1] | (1,) | [np.int64(1)]
+
+
+def group_shape(e):
+    """[g, n/g] of the (first) grouped projection inside e."""
+    if e["k"] == "L2ProjG":
+        g = e["q"][2][0]
+        return [g, e["q"][0][0] // g]
+    for c in e["s"]:
+        gs = group_shape(c)
+        if gs:
+            return gs
+    return None
 
 
 def build(sp, e, shape, cplx):
@@ -176,6 +202,12 @@ def build(sp, e, shape, cplx):
         return P.L2Reg(shape, float(fr(e["q"][0])), y=arr(e["v"][0]) if e["v"] else None, proxh=build(sp, e["s"][0], shape, cplx))
     if k == "L2Proj":
         return P.L2Proj(shape, float(fr(e["q"][1])), y=arr(e["v"][0]))
+    if k == "L2ProjG":
+        gs = group_shape(e)
+        if [int(v_) for v_ in shape] not in (gs, [gs[0], 1, gs[1]]):
+            raise AssertionError("harness: grouped projection %s built with shape %s" % (gs, shape))
+        ax = {"last": [-1], "tuple": (len(shape) - 1,), "numpy": [np.int64(len(shape) - 1)], "3d": (1, 2)}[AX_SPELL[0]] if len(shape) == 2 else (1, 2)
+        return P.L2Proj(shape, float(fr(e["q"][1])), y=arr(e["v"][0]), axes=ax)
     if k == "LInfProj":
         b = e["v"][0]
         zero = all(c[0][0] == 0 and c[1][0] == 0 for c in b)
@@ -188,7 +220,7 @@ def build(sp, e, shape, cplx):
         return P.Conj(build(sp, e["s"][0], shape, cplx))
     if k == "Stack":
         n1, n2 = expr_size(e["s"][0]), expr_size(e["s"][1])
-        s1 = [n1] if has_kind(e["s"][0], {"Stack", "Unitary"}) else factorizations(n1)[min(1, len(factorizations(n1)) - 1)]
+        s1 = [n1] if has_kind(e["s"][0], {"Stack", "Unitary"}) else group_shape(e["s"][0]) if has_kind(e["s"][0], {"L2ProjG"}) else factorizations(n1)[min(1, len(factorizations(n1)) - 1)]
         return P.Stack([build(sp, e["s"][0], s1, cplx), build(sp, e["s"][1], [n2], cplx)])
     if k == "Unitary":
         U = np.array([[cval(c) for c in row] for row in e["m"][0]], dtype=np.complex128)
@@ -219,13 +251,21 @@ def check_eval(sp, st):
         if cplx and has_kind(e, {"Box"}):
             continue
         exp = np.array([cval(c) for c in out], dtype=np.complex128)
+        spells = ["last"]
         if has_kind(e, {"Stack"}):
             shapes = [[n]]
+            if has_kind(e, {"L2ProjG"}):
+                spells = ["last", "tuple", "numpy"]
         elif has_kind(e, {"Unitary"}):
             shapes = [[n, 1]]
+        elif has_kind(e, {"L2ProjG"}):
+            gs = group_shape(e)
+            shapes = [gs, [gs[0], 1, gs[1]]]      # rows of a matrix; slabs of a 3-D array (axes = (1, 2))
+            spells = ["last", "tuple", "numpy"]
         else:
             shapes = factorizations(n)
-        for shape in shapes:
+        for shape, spell in [(sh_, sp_) for sh_ in shapes for sp_ in (spells if len(sh_) < 3 else ["3d"])]:
+            AX_SPELL[0] = spell
             yv = npvec(y, cplx).reshape(shape)
             y0 = yv.copy()
             with warnings.catch_warnings():
@@ -278,6 +318,8 @@ def check_thresh(sp, st):
     """Base-class states also exercise the thresholding functions directly (2-D / 3-D shapes)."""
     e, al, y, out = st["cur"], fr(st["alpha"]), st["y"], st["out"]
     k = e["k"]
+    if k == "L2ProjG":
+        return check_groups(sp, st)
     if k not in ("L1Reg", "L2Proj", "LInfProj", "L1Proj"):
         return []
     res = []
@@ -308,6 +350,40 @@ def check_thresh(sp, st):
             continue
         if not np.allclose(np.asarray(x).ravel(), exp, atol=1e-11 * max(1.0, float(np.abs(exp).max())), rtol=0):
             res.append((["C11"], "thresh_value", "thresh function for %s(%s) y=%s: got %s expected %s" % (k, [str(fr(q)) for q in e["q"]], [str(cval(c)) for c in y], np.asarray(x).ravel()[:6], exp[:6])))
+    return res
+
+
+def check_groups(sp, st):
+    """Grouped projection: the thresholding function with axes, and the same groups laid out as COLUMNS (axes = [0])."""
+    e, al, y, out = st["cur"], float(fr(st["alpha"])), st["y"], st["out"]
+    g, m = group_shape(e)
+    eps = float(fr(e["q"][1]))
+    cplx = is_cplx(y)
+    exp = np.array([cval(c) for c in out], dtype=np.complex128).reshape(g, m)
+    tol = 1e-11 * max(1.0, float(np.abs(exp).max()))
+    res = []
+    Y = npvec(y, cplx).reshape(g, m)
+    B = npvec(e["v"][0], cplx).reshape(g, m)
+    cases = [("thresh.l2_proj(axes=[-1])", lambda: sp.thresh.l2_proj(eps, Y - B, axes=[-1]) + B, exp, Y),
+             ("thresh.l2_proj(axes=(0,)) on the transpose", lambda: sp.thresh.l2_proj(eps, (Y - B).T, axes=(0,)) + B.T, exp.T, Y),
+             ("L2Proj([m, g], axes=[0]) on the transposed view", lambda: sp.prox.L2Proj([m, g], eps, y=B.T, axes=[0])(al, Y.T), exp.T, Y),
+             ("L2Proj([m, g], axes=(-2,)) on a transposed copy", lambda: sp.prox.L2Proj([m, g], eps, y=np.ascontiguousarray(B.T), axes=(-2,))(al, np.ascontiguousarray(Y.T)), exp.T, Y),
+             ("L2Proj([1, g, m], axes=[0, 2])", lambda: sp.prox.L2Proj([1, g, m], eps, y=B.reshape(1, g, m), axes=[0, 2])(al, Y.reshape(1, g, m)), exp.reshape(1, g, m), Y)]
+    for lab, f, want, arg in cases:
+        a0 = arg.copy()
+        try:
+            with warnings.catch_warnings():
+                warnings.simplefilter("ignore")
+                x = f()
+        except Exception as ex:
+            if not core.raised_in_code_under_test():
+                raise
+            res.append((["C11"], "exception", "%s eps=%s raised %r" % (lab, eps, ex)))
+            continue
+        if tuple(np.shape(x)) != tuple(want.shape) or not np.allclose(x, want, atol=tol, rtol=0):
+            res.append((["C11"], "value", "%s eps=%s groups %s: got %s, nearest points %s" % (lab, eps, Y.tolist(), np.asarray(x).ravel()[:6], want.ravel()[:6])))
+        if not np.array_equal(arg, a0):
+            res.append((["C02", "C11"], "input_mutated", "%s modified its input" % lab))
     return res
 
 
@@ -374,6 +450,14 @@ def check_weighted(sp):
             lam0 = lam.copy()
             cases = [("L1Reg(array lamda)", lambda: sp.prox.L1Reg(shape, lam), lambda al: [soft(v, al * w) for v, w in zip(ys, ws)]),
                      ("Conj(L1Reg(array lamda))", lambda: sp.prox.Conj(sp.prox.L1Reg(shape, lam)), lambda al: [v - soft(v, w) for v, w in zip(ys, ws)])]
+            if not cplx:   # per-element bounds (the box is defined for real arrays): the elementwise clip, also under the Moreau identity
+                lo_, hi_ = [Fr(-1), Fr(-1), Fr(-1, 4), Fr(2), Fr(-3), Fr(1)], [Fr(2), Fr(-1, 4), Fr(0), Fr(3), Fr(-2), Fr(1)]
+                lo_a, hi_a = np.array([float(v) for v in lo_]).reshape(shape), np.array([float(v) for v in hi_]).reshape(shape)
+                clip = lambda v, a, b: min(max(v, a), b)
+                cases += [("BoxConstraint(array lower, array upper)", lambda: sp.prox.BoxConstraint(shape, lo_a, hi_a), lambda al: [clip(v, a, b) for v, a, b in zip(ys, lo_, hi_)]),
+                          ("BoxConstraint(scalar lower, array upper)", lambda: sp.prox.BoxConstraint(shape, -3.0, hi_a), lambda al: [clip(v, Fr(-3), b) for v, b in zip(ys, hi_)]),
+                          ("Conj(BoxConstraint(array bounds))", lambda: sp.prox.Conj(sp.prox.BoxConstraint(shape, lo_a, hi_a)), lambda al: [v - al * clip(v / al, a, b) for v, a, b in zip(ys, lo_, hi_)])]
+                bounds0 = (lo_a.copy(), hi_a.copy())
             for name, mk, closed in cases:
                 P = mk()
                 for al in (Fr(1, 2), Fr(1, 2), Fr(3), Fr(1)):       # the same object, repeatedly, with different steps
@@ -392,6 +476,9 @@ def check_weighted(sp):
                     if not np.array_equal(lam, lam0):
                         res.append((["C02", "C11"], "captured_mutated", "%s modified the weight array it was built from" % name))
                         lam[...] = lam0
+                    if not cplx and not (np.array_equal(lo_a, bounds0[0]) and np.array_equal(hi_a, bounds0[1])):
+                        res.append((["C02", "C11"], "captured_mutated", "%s modified the bound arrays it was built from" % name))
+                        lo_a[...], hi_a[...] = bounds0
     return res, n
 
 
